@@ -27,8 +27,13 @@ def run(tier, rep):
         tr = os.path.join(vlib.scratch(), "c14.%s.ndjson" % gmp)
         pool = os.path.join(vlib.scratch(), "c14.pool.%s.ndjson" % gmp)
         racelog = os.path.join(vlib.scratch(), "race.%s" % gmp)
-        recs, _ = vlib.run_vh(["c14-drive", tr, pool, str(G), "4" if thorough else "2"], race=True, timeout=3400,
-                              env={"GOMAXPROCS": gmp, "GORACE": "exitcode=0 halt_on_error=0 log_path=" + racelog})
+        died = None
+        try:
+            recs, _ = vlib.run_vh(["c14-drive", tr, pool, str(G), "4" if thorough else "2"], race=True, timeout=3400,
+                                  env={"GOMAXPROCS": gmp, "GORACE": "exitcode=0 halt_on_error=0 log_path=" + racelog})
+        except (vlib.Inconclusive, vlib.RepoCrash) as e:
+            # the process may die of what the race detector has just reported (e.g. "concurrent map writes"): the report decides
+            died, recs = e, []
         for x in recs:
             if x.get("kind") == "violation":
                 rep.violation(x)
@@ -42,6 +47,12 @@ def run(tier, rep):
                 frame = next((ln.strip() for ln in first.splitlines() if "/repo/" in ln or "omniparser" in ln), "unknown")
                 rep.violation({"property": "C14", "key": "data-race:" + frame.split("/")[-1][:80], "kind": "race",
                                "summary": "the race detector reports a data race (GOMAXPROCS=%s, %d goroutines): %s" % (gmp, G, frame), "report": first})
+                if died is not None:
+                    died = "reported"
+        if died == "reported":
+            continue          # no transcripts to validate: the process died after the race had been reported
+        if died is not None:
+            raise died
         for rj in vlib.validate_traces(rep, "Trace_Runs", "Trace_Runs.cfg", tr, name="Trace_Runs(GOMAXPROCS=%s)" % gmp, timeout=3000):
             ev = rj["failing_event"]
             rep.violation({"property": "C14", "key": "concurrent-result-differs:" + str(ev.get("item")), "kind": "b3",
